@@ -145,11 +145,12 @@ func (c *Context) Child(id string) *PID {
 
 // Children returns all child PIDs for the current process.
 func (c *Context) Children() []*PID {
-	pids := make([]*PID, c.children.Len())
-	i := 0
+	// The slice is built inside ForEach's single critical section: sizing it
+	// with Len() beforehand races with children that stop or are spawned in
+	// between (nil entries, or an index out of range).
+	pids := make([]*PID, 0)
 	c.children.ForEach(func(_ string, child *PID) {
-		pids[i] = child
-		i++
+		pids = append(pids, child)
 	})
 	return pids
 }
